@@ -1,12 +1,960 @@
-//! Component `huff`: protocol runner (real code), case generator, implementation-level oracles.
-//! (stub; owned by the component's author)
+//! Component `huff`: protocol runner (real code), case generator, implementation-level oracles
+//! for the Huffman codebooks (`constriction::symbol::huffman`).
+//!
+//! Protocol (see `lean/CV/Driver/Huff.lean`): `huff <ty> [k] | <weights> | op | op …`.
+//! The trees' `nodes` fields are private; they are observed through the derived `Debug` impl.
 #![allow(unused)]
 use crate::util::*;
+use constriction::symbol::huffman::{DecoderHuffmanTree, EncoderHuffmanTree};
+use constriction::symbol::{DecoderCodebook, EncoderCodebook, SymbolCodeError};
+use constriction::CoderError;
+use std::collections::BinaryHeap;
+use std::cmp::Reverse;
+use std::convert::Infallible;
 
-pub fn run(_segs: &[Vec<&str>]) -> String {
-    "bad-op".into()
+// ---------------------------------------------------------------------------------------------
+// construction
+
+/// `Ok(tree)`, or the canonical status string
+type Built = (Result<EncoderHuffmanTree, String>, Result<DecoderHuffmanTree, String>);
+
+fn flatten_guard<T, E>(r: Result<Result<T, E>, &'static str>) -> Result<T, String> {
+    match r {
+        Ok(Ok(t)) => Ok(t),
+        Ok(Err(_)) => Err("rejected".to_string()),
+        Err(class) => Err(class.to_string()),
+    }
 }
 
-pub fn gen(_rng: &mut Rng, _tier: &str, _out: &mut Vec<String>) {}
+fn build_int<P>(ws: &[Option<u128>]) -> Built
+where
+    P: num_traits::PrimInt + Ord + Clone + core::ops::Add<Output = P>,
+{
+    let conv: Vec<Option<P>> = ws.iter().map(|w| w.map(|v| from_u128::<P>(v))).collect();
+    if conv.iter().all(|w| w.is_some()) {
+        // plain constructor (borrowed items)
+        let v: Vec<P> = conv.iter().map(|w| w.unwrap()).collect();
+        let e = guarded(|| Ok::<_, ()>(EncoderHuffmanTree::from_probabilities::<P, _>(&v)));
+        let d = guarded(|| Ok::<_, ()>(DecoderHuffmanTree::from_probabilities::<P, _>(&v)));
+        (flatten_guard(e), flatten_guard(d))
+    } else {
+        let e = guarded(|| {
+            EncoderHuffmanTree::try_from_probabilities::<P, (), _>(conv.iter().map(|w| w.ok_or(())))
+        });
+        let d = guarded(|| {
+            DecoderHuffmanTree::try_from_probabilities::<P, (), _>(conv.iter().map(|w| w.ok_or(())))
+        });
+        (flatten_guard(e), flatten_guard(d))
+    }
+}
 
-pub fn oracle(_rng: &mut Rng, _tier: &str, _rep: &mut Report) {}
+fn build_f32(ws: &[Option<u128>], k: u32) -> Built {
+    let scale = (2.0f32).powi(-(k as i32));
+    let v: Vec<f32> = ws.iter().map(|w| w.map(|v| v as f32 * scale).unwrap_or(f32::NAN)).collect();
+    let e = guarded(|| EncoderHuffmanTree::from_float_probabilities::<f32, _>(&v));
+    let d = guarded(|| DecoderHuffmanTree::from_float_probabilities::<f32, _>(&v));
+    (flatten_guard(e), flatten_guard(d))
+}
+
+fn build_f64(ws: &[Option<u128>], k: u32) -> Built {
+    let scale = (2.0f64).powi(-(k as i32));
+    let v: Vec<f64> = ws.iter().map(|w| w.map(|v| v as f64 * scale).unwrap_or(f64::NAN)).collect();
+    let e = guarded(|| EncoderHuffmanTree::from_float_probabilities::<f64, _>(&v));
+    let d = guarded(|| DecoderHuffmanTree::from_float_probabilities::<f64, _>(&v));
+    (flatten_guard(e), flatten_guard(d))
+}
+
+fn build(ty: &str, k: u32, ws: &[Option<u128>]) -> Option<Built> {
+    Some(match ty {
+        "u8" => build_int::<u8>(ws),
+        "u16" => build_int::<u16>(ws),
+        "u32" => build_int::<u32>(ws),
+        "u64" => build_int::<u64>(ws),
+        "usize" => build_int::<usize>(ws),
+        "f32" => build_f32(ws, k),
+        "f64" => build_f64(ws, k),
+        _ => return None,
+    })
+}
+
+fn type_bits(ty: &str) -> Option<u32> {
+    match ty {
+        "u8" => Some(8),
+        "u16" => Some(16),
+        "u32" => Some(32),
+        "u64" | "usize" => Some(64),
+        _ => None,
+    }
+}
+
+fn parse_weights(s: &str) -> Option<Vec<Option<u128>>> {
+    if s == "-" {
+        return Some(vec![]);
+    }
+    s.split(',')
+        .map(|t| if t == "nan" { Some(None) } else { parse_hex(t).map(Some) })
+        .collect()
+}
+
+/// all unsigned decimal numbers occurring in a `Debug` rendering
+fn numbers_in(s: &str) -> Vec<u128> {
+    let mut out = Vec::new();
+    let mut cur: Option<u128> = None;
+    for c in s.chars() {
+        if let Some(d) = c.to_digit(10) {
+            cur = Some(cur.unwrap_or(0) * 10 + d as u128);
+        } else if let Some(v) = cur.take() {
+            out.push(v);
+        }
+    }
+    if let Some(v) = cur {
+        out.push(v);
+    }
+    out
+}
+
+fn enc_nodes(t: &EncoderHuffmanTree) -> Vec<u128> {
+    numbers_in(&format!("{:?}", t))
+}
+fn dec_nodes(t: &DecoderHuffmanTree) -> Vec<u128> {
+    numbers_in(&format!("{:?}", t))
+}
+
+// ---------------------------------------------------------------------------------------------
+// encode / decode observers
+
+fn show_bits(bits: &[bool]) -> String {
+    if bits.is_empty() {
+        "-".into()
+    } else {
+        bits.iter().map(|&b| if b { '1' } else { '0' }).collect()
+    }
+}
+
+/// `Ok(bits)` / `Err("impossible")`; `full` = the emit callback returned an error
+fn encode_with(
+    t: &EncoderHuffmanTree,
+    prefix: bool,
+    s: usize,
+    cap: Option<usize>,
+) -> (Vec<bool>, &'static str) {
+    let mut bits = Vec::new();
+    let emit = |b: bool| -> Result<(), ()> {
+        if let Some(c) = cap {
+            if bits.len() >= c {
+                return Err(());
+            }
+        }
+        bits.push(b);
+        Ok(())
+    };
+    let r = if prefix { t.encode_symbol_prefix(s, emit) } else { t.encode_symbol_suffix(s, emit) };
+    let status = match r {
+        Ok(()) => "ok",
+        Err(CoderError::Frontend(_)) => "impossible",
+        Err(CoderError::Backend(())) => "full",
+    };
+    (bits, status)
+}
+
+fn encode_str(t: &EncoderHuffmanTree, prefix: bool, s: u128, cap: Option<usize>) -> String {
+    if s > usize::MAX as u128 {
+        return "bad-op".into();
+    }
+    let (bits, status) = encode_with(t, prefix, s as usize, cap);
+    if status == "impossible" {
+        "impossible".into()
+    } else {
+        format!("{} {}", show_bits(&bits), status)
+    }
+}
+
+fn parse_src(s: &str) -> Option<Vec<Option<bool>>> {
+    if s == "-" {
+        return Some(vec![]);
+    }
+    s.chars()
+        .map(|c| match c {
+            '0' => Some(Some(false)),
+            '1' => Some(Some(true)),
+            'x' => Some(None),
+            _ => None,
+        })
+        .collect()
+}
+
+fn show_src(src: &[Option<bool>]) -> String {
+    if src.is_empty() {
+        "-".into()
+    } else {
+        src.iter()
+            .map(|b| match b {
+                Some(true) => '1',
+                Some(false) => '0',
+                None => 'x',
+            })
+            .collect()
+    }
+}
+
+fn decode_str(t: &DecoderHuffmanTree, src: &[Option<bool>]) -> String {
+    let mut it = src.iter().map(|b| b.ok_or(()));
+    match t.decode_symbol(&mut it) {
+        Ok(s) => {
+            let rest: Vec<Option<bool>> = it.map(|r| r.ok()).collect();
+            format!("{} {}", hex(s as u128), show_src(&rest))
+        }
+        Err(CoderError::Frontend(SymbolCodeError::OutOfCompressedData)) => "out_of_data".into(),
+        Err(CoderError::Frontend(SymbolCodeError::InvalidCodeword(_))) => "invalid".into(),
+        Err(CoderError::Backend(())) => "readerr".into(),
+    }
+}
+
+// ---------------------------------------------------------------------------------------------
+// run
+
+fn parse_cap(toks: &[&str]) -> Option<Option<usize>> {
+    match toks {
+        [] => Some(None),
+        [c] => parse_hex(c).map(|v| Some(v.min(usize::MAX as u128) as usize)),
+        _ => None,
+    }
+}
+
+fn do_op(e: &EncoderHuffmanTree, d: &DecoderHuffmanTree, seg: &[&str]) -> Option<String> {
+    match seg {
+        ["enc"] => Some(show_list(enc_nodes(e))),
+        ["dec"] => Some(show_list(dec_nodes(d))),
+        ["ns"] => Some(format!("{} {}", hex(e.num_symbols() as u128), hex(d.num_symbols() as u128))),
+        ["book"] => {
+            let mut words = Vec::new();
+            for s in 0..e.num_symbols() {
+                let (bits, status) = encode_with(e, true, s, None);
+                if status != "ok" {
+                    return Some(status.into());
+                }
+                words.push(show_bits(&bits));
+            }
+            Some(words.join(","))
+        }
+        ["prefix", s, cap @ ..] => {
+            let s = parse_hex(s)?;
+            let cap = parse_cap(cap)?;
+            Some(encode_str(e, true, s, cap))
+        }
+        ["suffix", s, cap @ ..] => {
+            let s = parse_hex(s)?;
+            let cap = parse_cap(cap)?;
+            Some(encode_str(e, false, s, cap))
+        }
+        ["decode", bits] => {
+            let src = parse_src(bits)?;
+            Some(decode_str(d, &src))
+        }
+        _ => None,
+    }
+}
+
+pub fn run(segs: &[Vec<&str>]) -> String {
+    if segs.len() < 2 || segs[1].len() != 1 {
+        return "bad-op".into();
+    }
+    let (ty, k) = match segs[0].as_slice() {
+        ["huff", ty] => (*ty, None),
+        ["huff", ty, k] => match parse_hex(k) {
+            Some(k) => (*ty, Some(k as u32)),
+            None => return "bad-op".into(),
+        },
+        _ => return "bad-op".into(),
+    };
+    if type_bits(ty).is_some() && k.is_some() {
+        return "bad-op".into();
+    }
+    let ws = match parse_weights(segs[1][0]) {
+        Some(ws) => ws,
+        None => return "bad-op".into(),
+    };
+    let (e, d) = match build(ty, k.unwrap_or(0), &ws) {
+        Some(b) => b,
+        None => return "bad-op".into(),
+    };
+    let status = |r: &Result<_, String>| match r {
+        Ok(_) => "ok".to_string(),
+        Err(s) => s.clone(),
+    };
+    let head = format!(
+        "{} {}",
+        match &e {
+            Ok(_) => "ok".to_string(),
+            Err(s) => s.clone(),
+        },
+        match &d {
+            Ok(_) => "ok".to_string(),
+            Err(s) => s.clone(),
+        }
+    );
+    let (e, d) = match (e, d) {
+        (Ok(e), Ok(d)) => (e, d),
+        _ => return head,
+    };
+    let mut outs = vec![head];
+    for seg in &segs[2..] {
+        match guarded(|| do_op(&e, &d, seg)) {
+            Ok(Some(o)) => outs.push(o),
+            Ok(None) => {
+                outs.push("bad-op".into());
+                break;
+            }
+            Err(class) => {
+                outs.push(class.into());
+                break;
+            }
+        }
+    }
+    outs.join(" | ")
+}
+
+// ---------------------------------------------------------------------------------------------
+// reference implementations used by the generator (to aim ops) and by the oracles
+
+/// textbook Huffman cost with a priority queue of weights only: the sum of all merged weights
+fn textbook_cost(ws: &[u128]) -> u128 {
+    let mut heap: BinaryHeap<Reverse<u128>> = ws.iter().map(|&w| Reverse(w)).collect();
+    let mut cost = 0u128;
+    while heap.len() >= 2 {
+        let a = heap.pop().unwrap().0;
+        let b = heap.pop().unwrap().0;
+        cost += a + b;
+        heap.push(Reverse(a + b));
+    }
+    cost
+}
+
+/// minimum of `Σ w_s · depth_s` over all full binary trees with the given leaves, by dynamic
+/// programming over subsets: `opt(S) = W(S) + min_{A ⊂ S} opt(A) + opt(S \ A)`
+fn brute_force_cost(ws: &[u128]) -> u128 {
+    let n = ws.len();
+    assert!(n >= 1 && n <= 10);
+    let full = (1usize << n) - 1;
+    let mut weight = vec![0u128; full + 1];
+    for s in 1..=full {
+        let low = s.trailing_zeros() as usize;
+        weight[s] = weight[s & (s - 1)] + ws[low];
+    }
+    let mut opt = vec![0u128; full + 1];
+    for s in 1..=full {
+        if s & (s - 1) == 0 {
+            continue;
+        }
+        let mut best = u128::MAX;
+        // proper non-empty subsets containing the lowest element (each split once)
+        let low = s & s.wrapping_neg();
+        let rest = s ^ low;
+        let mut a = rest;
+        loop {
+            // a ranges over subsets of rest; left part = low | (rest \ a) must be proper
+            let left = low | (rest ^ a);
+            let right = a;
+            if right != 0 {
+                best = best.min(opt[left] + opt[right]);
+            }
+            if a == 0 {
+                break;
+            }
+            a = (a - 1) & rest;
+        }
+        opt[s] = weight[s] + best;
+    }
+    opt[full]
+}
+
+fn weights_str(ws: &[u128]) -> String {
+    show_list(ws.iter().copied())
+}
+
+fn bits_str_random(rng: &mut Rng, len: usize) -> String {
+    if len == 0 {
+        return "-".into();
+    }
+    (0..len).map(|_| if rng.chance(1, 2) { '1' } else { '0' }).collect()
+}
+
+/// a standard set of ops for a weight vector of length `n` (all node arrays, every symbol in
+/// both forms for small `n`, out-of-alphabet symbols, decodes of codewords + suffixes, decodes
+/// of arbitrary and truncated bit strings, failing emit / failing source)
+fn ops_for(rng: &mut Rng, ws: &[u128], ty: &str, rich: bool) -> String {
+    let n = ws.len();
+    let mut ops: Vec<String> = vec!["enc".into(), "dec".into(), "ns".into()];
+    if n <= 40 || rich {
+        ops.push("book".into());
+    }
+    // the real code tells us the codewords (only used to aim the decode ops)
+    let wsv: Vec<u64> = ws.iter().map(|&w| w as u64).collect();
+    let total: u128 = ws.iter().sum();
+    let safe = total <= u64::MAX as u128 && n >= 1;
+    let tree = if safe { Some(EncoderHuffmanTree::from_probabilities::<u64, _>(&wsv)) } else { None };
+    let syms: Vec<usize> = if n <= 8 {
+        (0..n).collect()
+    } else {
+        (0..6).map(|_| rng.below(n as u128) as usize).chain([0, n - 1]).collect()
+    };
+    for &s in &syms {
+        match rng.next() % 4 {
+            0 => ops.push(format!("prefix {:x}", s)),
+            1 => ops.push(format!("suffix {:x}", s)),
+            2 => {
+                ops.push(format!("prefix {:x}", s));
+                ops.push(format!("suffix {:x}", s));
+            }
+            _ => {
+                let cap = rng.below(4);
+                let which = if rng.chance(1, 2) { "prefix" } else { "suffix" };
+                ops.push(format!("{} {:x} {:x}", which, s, cap));
+            }
+        }
+        if let Some(t) = &tree {
+            let (bits, _) = encode_with(t, true, s, None);
+            let mut word = show_bits(&bits);
+            if word == "-" {
+                word.clear();
+            }
+            match rng.next() % 5 {
+                0 => {}
+                1 | 2 => {
+                    let l = rng.below(5) as usize;
+                    let tail = bits_str_random(rng, l);
+                    if tail != "-" {
+                        word.push_str(&tail);
+                    }
+                }
+                3 => {
+                    // truncated codeword
+                    let keep = if word.is_empty() { 0 } else { rng.below(word.len() as u128) as usize };
+                    word.truncate(keep);
+                }
+                _ => {
+                    // source error somewhere (inside or after the codeword)
+                    let at = rng.below(word.len() as u128 + 2) as usize;
+                    let at = at.min(word.len());
+                    word.insert(at, 'x');
+                }
+            }
+            ops.push(format!("decode {}", if word.is_empty() { "-".to_string() } else { word }));
+        }
+    }
+    // out-of-alphabet symbols (C09): n, n+1, 2n-1 (= nodes.len()), 2n, powers of two, usize::MAX
+    let mut outside: Vec<u128> = vec![n as u128, n as u128 + 1, 2 * n as u128, 1 << 16, 1 << 32, (1 << 32) + 1, u64::MAX as u128];
+    if n >= 1 {
+        outside.push(2 * n as u128 - 1);
+        outside.push(2 * n as u128 - 2);
+        outside.push((1u128 << 32) + (n as u128 - 1));
+        outside.push((1u128 << 63) + (n as u128 - 1));
+    }
+    let k = if rich { outside.len() } else { 3 };
+    for _ in 0..k {
+        let s = *rng.pick(&outside);
+        if s >= n as u128 {
+            let which = if rng.chance(1, 2) { "prefix" } else { "suffix" };
+            ops.push(format!("{} {:x}", which, s));
+        }
+    }
+    // arbitrary bit strings
+    for _ in 0..(if rich { 4 } else { 2 }) {
+        let l = rng.below(12) as usize;
+        ops.push(format!("decode {}", bits_str_random(rng, l)));
+    }
+    ops.push("decode -".into());
+    ops.join(" | ")
+}
+
+fn line(ty: &str, k: Option<u32>, ws_text: &str, ops: &str) -> String {
+    match k {
+        Some(k) => format!("huff {} {:x} | {} | {}", ty, k, ws_text, ops),
+        None => format!("huff {} | {} | {}", ty, ws_text, ops),
+    }
+}
+
+const INT_TYPES: [&str; 5] = ["u8", "u16", "u32", "u64", "usize"];
+const ALL_TYPES: [&str; 7] = ["u8", "u16", "u32", "u64", "usize", "f32", "f64"];
+
+/// every weight vector over `0..=max_w` of length `len`, via a callback
+fn for_all_vectors(len: usize, max_w: u128, f: &mut dyn FnMut(&[u128])) {
+    let mut v = vec![0u128; len];
+    loop {
+        f(&v);
+        let mut i = 0;
+        loop {
+            if i == len {
+                return;
+            }
+            if v[i] < max_w {
+                v[i] += 1;
+                break;
+            }
+            v[i] = 0;
+            i += 1;
+        }
+    }
+}
+
+pub fn gen(rng: &mut Rng, tier: &str, out: &mut Vec<String>) {
+    let thorough = tier == "thorough";
+    // 1. all weight vectors over {0..5}: quick: length ≤ 4 complete (1554 vectors) plus a
+    //    random 1/60 sample of lengths 5..7; thorough: length ≤ 6 complete, 1/6 of length 7.
+    let complete_upto = if thorough { 6 } else { 4 };
+    let mut idx = 0usize;
+    for len in 1..=7usize {
+        let sample_den: u64 = if len <= complete_upto {
+            1
+        } else if thorough {
+            6
+        } else {
+            match len {
+                5 => 12,
+                6 => 80,
+                _ => 500,
+            }
+        };
+        let mut r = rng.fork();
+        let mut lines = Vec::new();
+        for_all_vectors(len, 5, &mut |v| {
+            if sample_den == 1 || r.next() % sample_den == 0 {
+                let ty = ALL_TYPES[idx % ALL_TYPES.len()];
+                idx += 1;
+                let k = if ty.starts_with('f') { Some((r.next() % 4) as u32 * 5) } else { None };
+                let ops = ops_for(&mut r, v, ty, false);
+                lines.push(line(ty, k, &weights_str(v), &ops));
+            }
+        });
+        out.extend(lines);
+    }
+    let mult = if thorough { 20 } else { 1 };
+    // 2. empty list, single symbol
+    for ty in ALL_TYPES {
+        out.push(line(ty, None, "-", "enc"));
+        for w in [0u128, 1, 5, 0xff] {
+            let ops = ops_for(rng, &[w], ty, true);
+            out.push(line(ty, None, &weights_str(&[w]), &ops));
+        }
+    }
+    // 3. repeated weights (tie-breaking by index), incl. all-equal, all-zero, two-valued
+    for _ in 0..150 * mult {
+        let n = rng.range(2, 24) as usize;
+        let ty = *rng.pick(&ALL_TYPES);
+        let vals: Vec<u128> = match rng.next() % 4 {
+            0 => vec![rng.below(4)],
+            1 => vec![0, 1],
+            2 => vec![1, 2],
+            _ => vec![rng.below(3), 1 + rng.below(3), 2 + rng.below(4)],
+        };
+        let ws: Vec<u128> = (0..n).map(|_| *rng.pick(&vals)).collect();
+        let total: u128 = ws.iter().sum();
+        if ty == "u8" && total > 255 {
+            continue;
+        }
+        let ops = ops_for(rng, &ws, ty, false);
+        out.push(line(ty, None, &weights_str(&ws), &ops));
+    }
+    // 4. sums that tie with leaves / other sums (powers of two, Fibonacci = deepest trees)
+    for n in 2..=(if thorough { 80 } else { 40 }) {
+        let ty = if n < 12 { *rng.pick(&ALL_TYPES) } else if n < 70 { *rng.pick(&["u64", "usize", "f64"]) } else { *rng.pick(&["u64", "usize"]) };
+        let mut fib = vec![1u128, 1];
+        while fib.len() < n {
+            let l = fib.len();
+            fib.push(fib[l - 1] + fib[l - 2]);
+        }
+        fib.truncate(n);
+        if ty == "u8" && fib.iter().sum::<u128>() > 255 {
+            continue;
+        }
+        let exact = !(ty == "f64" && fib.iter().sum::<u128>() >= 1 << 53) && !(ty == "f32" && fib.iter().sum::<u128>() >= 1 << 24);
+        if exact {
+            if rng.chance(1, 2) {
+                fib.reverse();
+            }
+            let ops = ops_for(rng, &fib, ty, n <= 12);
+            out.push(line(ty, None, &weights_str(&fib), &ops));
+        }
+        if n <= 50 {
+            let pows: Vec<u128> = (0..n).map(|i| 1u128 << (i.min(n - 2))).collect();
+            let ty2 = if n <= 8 { ty } else if n <= 23 { "u32" } else { "u64" };
+            if !(ty2 == "u8" && pows.iter().sum::<u128>() > 255) {
+                let ops = ops_for(rng, &pows, ty2, false);
+                out.push(line(ty2, None, &weights_str(&pows), &ops));
+            }
+        }
+    }
+    // 5. random vectors, every type, sums within the type (and exactly representable)
+    for _ in 0..400 * mult {
+        let ty = *rng.pick(&ALL_TYPES);
+        let n = match rng.next() % 6 {
+            0 => rng.range(1, 4),
+            1 | 2 => rng.range(2, 12),
+            3 | 4 => rng.range(8, 64),
+            _ => rng.range(64, 300),
+        } as usize;
+        let budget: u128 = match ty {
+            "u8" => 255,
+            "u16" => 65535,
+            "u32" => u32::MAX as u128,
+            "u64" | "usize" => u64::MAX as u128,
+            "f32" => (1 << 24) - 1,
+            _ => (1u128 << 53) - 1,
+        };
+        let per = (budget / n as u128).max(1);
+        let style = rng.next() % 4;
+        let mut ws: Vec<u128> = (0..n)
+            .map(|_| match style {
+                0 => rng.below(per.min(8) + 1),
+                1 => rng.below(per + 1),
+                2 => rng.bits_biased(16).min(per),
+                _ => {
+                    let k = rng.below(128 - per.leading_zeros() as u128 + 1) as u32;
+                    rng.below(pow2(k).max(1)).min(per)
+                }
+            })
+            .collect();
+        let total: u128 = ws.iter().sum();
+        if total > budget {
+            continue;
+        }
+        let k = if ty.starts_with('f') && rng.chance(1, 2) { Some(rng.below(40) as u32) } else { None };
+        let ops = ops_for(rng, &ws, ty, false);
+        out.push(line(ty, k, &weights_str(&ws), &ops));
+    }
+    // 6. long vectors
+    for _ in 0..(if thorough { 40 } else { 6 }) {
+        let n = rng.range(500, if thorough { 3000 } else { 1500 }) as usize;
+        let ty = *rng.pick(&["u32", "u64", "usize", "f64"]);
+        let maxw = *rng.pick(&[1u128, 3, 100, 100000]);
+        let ws: Vec<u128> = (0..n).map(|_| rng.below(maxw + 1)).collect();
+        let ops = ops_for(rng, &ws, ty, false);
+        out.push(line(ty, None, &weights_str(&ws), &ops));
+    }
+    // 7. integer overflow of `prob0 + prob1` at the boundary of the weight type:
+    //    total ∈ {max-1, max, max+1, …}
+    for _ in 0..60 * mult {
+        let ty = *rng.pick(&INT_TYPES);
+        let bits = type_bits(ty).unwrap();
+        let max = pow2(bits) - 1;
+        let n = rng.range(2, 6) as usize;
+        let target = match rng.next() % 5 {
+            0 => max - 1,
+            1 => max,
+            2 => max + 1,
+            3 => max + 2,
+            _ => max + rng.below(max / 2),
+        };
+        // split `target` into n parts each ≤ max
+        let mut ws = vec![0u128; n];
+        let mut left = target;
+        for i in 0..n {
+            let hi = left.min(max);
+            let lo = if left > max * (n - 1 - i) as u128 { left - max * (n - 1 - i) as u128 } else { 0 };
+            let v = if i == n - 1 { left } else { rng.range(lo.min(hi), hi) };
+            ws[i] = v.min(max);
+            left -= ws[i];
+        }
+        if left != 0 {
+            continue;
+        }
+        let ops = "enc | dec | book";
+        out.push(line(ty, None, &weights_str(&ws), ops));
+    }
+    // 8. NaN / Err items anywhere (also in a list that would otherwise panic: empty after
+    //    removal, overflowing)
+    for _ in 0..40 * mult {
+        let ty = *rng.pick(&ALL_TYPES);
+        let n = rng.range(1, 6) as usize;
+        let mut toks: Vec<String> = (0..n).map(|_| hex(rng.below(200))).collect();
+        let nans = rng.range(1, 2) as usize;
+        for _ in 0..nans {
+            let at = rng.below(toks.len() as u128) as usize;
+            toks[at] = "nan".into();
+        }
+        out.push(line(ty, None, &toks.join(","), "enc | dec"));
+    }
+    // 9. malformed lines
+    out.push("huff u8 | 1,2 | frobnicate".into());
+    out.push("huff u7 | 1,2 | enc".into());
+    out.push("huff u8 3 | 1,2 | enc".into());
+}
+
+// ---------------------------------------------------------------------------------------------
+// oracles (implementation only; C15, C09)
+
+struct Code {
+    enc: EncoderHuffmanTree,
+    dec: DecoderHuffmanTree,
+    words: Vec<Vec<bool>>,
+}
+
+fn oracle_one(ws: &[u128], ty: &str, rng: &mut Rng, rep: &mut Report, brute: bool) {
+    let replay = || format!("huff {} | {}", ty, weights_str(ws));
+    let n = ws.len();
+    let opts: Vec<Option<u128>> = ws.iter().map(|&w| Some(w)).collect();
+    let (e, d) = match build(ty, 0, &opts) {
+        Some((Ok(e), Ok(d))) => (e, d),
+        _ => {
+            rep.fail("C15", format!("{} : construction failed", replay()));
+            return;
+        }
+    };
+    rep.eval("C15");
+    rep.count(&format!("huff.type.{}", ty));
+    rep.count(&format!("huff.n.{}", if n <= 8 { n.to_string() } else if n <= 64 { "9-64".into() } else { "65+".into() }));
+    let mut fail = |what: &str| rep.fail("C15", format!("{} : {}", replay(), what));
+    if e.num_symbols() != n || d.num_symbols() != n {
+        fail("num_symbols");
+        return;
+    }
+    // codewords in both forms
+    let mut words: Vec<Vec<bool>> = Vec::with_capacity(n);
+    for s in 0..n {
+        let (p, st) = encode_with(&e, true, s, None);
+        let (mut q, st2) = encode_with(&e, false, s, None);
+        if st != "ok" || st2 != "ok" {
+            fail(&format!("symbol {} not encodable", s));
+            return;
+        }
+        q.reverse();
+        if p != q {
+            fail(&format!("prefix != reverse suffix for symbol {}", s));
+        }
+        words.push(p);
+    }
+    // single symbol: empty word; Kraft equality for n >= 2 (exact, as a fraction over 2^D)
+    if n == 1 {
+        if !words[0].is_empty() {
+            fail("single symbol has a non-empty codeword");
+        }
+    } else {
+        let dmax = words.iter().map(|w| w.len()).max().unwrap();
+        if dmax <= 120 {
+            let sum: u128 = words.iter().map(|w| 1u128 << (dmax - w.len())).sum();
+            if sum != 1u128 << dmax {
+                fail("Kraft sum != 1");
+            }
+        } else {
+            // big-number free check: repeatedly merge equal-length pairs (sorted lengths)
+            let mut lens: Vec<usize> = words.iter().map(|w| w.len()).collect();
+            lens.sort_unstable_by(|a, b| b.cmp(a));
+            // a stack-based check that Σ 2^-len = 1: process from longest
+            let mut stack: Vec<usize> = Vec::new();
+            for l in lens {
+                let mut cur = l;
+                // insert `cur`, merging while the top equals it
+                loop {
+                    if let Some(&top) = stack.last() {
+                        if top == cur {
+                            stack.pop();
+                            cur -= 1;
+                            continue;
+                        }
+                    }
+                    break;
+                }
+                stack.push(cur);
+            }
+            if stack != vec![0] {
+                fail("Kraft sum != 1 (long code)");
+            }
+        }
+    }
+    // prefix-free: sort and compare neighbours (a prefix sorts directly before an extension)
+    {
+        let mut sorted: Vec<&Vec<bool>> = words.iter().collect();
+        sorted.sort();
+        for w in sorted.windows(2) {
+            if w[1].len() >= w[0].len() && w[1][..w[0].len()] == w[0][..] {
+                fail("code is not prefix-free");
+                break;
+            }
+        }
+    }
+    // encoder and decoder describe the same code: decode(prefix s ++ rest) = (s, rest)
+    for s in 0..n {
+        if n > 64 && !rng.chance(1, 8) {
+            continue;
+        }
+        let l = rng.below(6) as usize;
+        let rest: Vec<bool> = (0..l).map(|_| rng.chance(1, 2)).collect();
+        let src: Vec<Option<bool>> = words[s].iter().chain(rest.iter()).map(|&b| Some(b)).collect();
+        let mut it = src.iter().map(|b| b.ok_or(()));
+        match d.decode_symbol(&mut it) {
+            Ok(t) if t == s => {
+                let left: Vec<bool> = it.map(|r| r.unwrap()).collect();
+                if left != rest {
+                    fail(&format!("decode consumed the wrong number of bits for symbol {}", s));
+                }
+            }
+            _ => fail(&format!("decode(prefix {}) failed", s)),
+        }
+        // every proper prefix of a codeword runs out of data
+        if !words[s].is_empty() {
+            let cut = rng.below(words[s].len() as u128) as usize;
+            let src: Vec<Option<bool>> = words[s][..cut].iter().map(|&b| Some(b)).collect();
+            let mut it = src.iter().map(|b| b.ok_or(()));
+            if !matches!(d.decode_symbol(&mut it), Err(CoderError::Frontend(SymbolCodeError::OutOfCompressedData))) {
+                fail(&format!("truncated codeword of {} did not give OutOfCompressedData", s));
+            }
+        }
+    }
+    // decoding arbitrary bits yields a symbol of the alphabet whose codeword is what was consumed
+    for _ in 0..4 {
+        let l = rng.below(40) as usize;
+        let src: Vec<bool> = (0..l).map(|_| rng.chance(1, 2)).collect();
+        let mut it = src.iter().map(|&b| Ok::<bool, ()>(b));
+        if let Ok(s) = d.decode_symbol(&mut it) {
+            let left = it.count();
+            if s >= n || words[s][..] != src[..l - left] {
+                fail("decode of arbitrary bits is not the inverse of encode");
+            }
+        }
+    }
+    // optimality: cost equals the textbook priority-queue cost; and brute force for tiny n
+    let cost: u128 = (0..n).map(|s| ws[s] * words[s].len() as u128).sum();
+    if cost != textbook_cost(ws) {
+        fail(&format!("cost {} != textbook Huffman cost {}", cost, textbook_cost(ws)));
+    }
+    if brute && n <= 9 {
+        rep.count("huff.bruteforce");
+        if cost != brute_force_cost(ws) {
+            fail(&format!("cost {} != brute-force optimum {}", cost, brute_force_cost(ws)));
+        }
+    }
+    // deterministic tie-breaking by index: among equal weights, codeword lengths are
+    // non-increasing in the index (earlier index is merged earlier, i.e. sits at least as deep),
+    // and rebuilding gives the identical arrays
+    for i in 0..n {
+        for j in (i + 1)..n.min(i + 40) {
+            if ws[i] == ws[j] && words[i].len() < words[j].len() {
+                fail(&format!("tie {} {} not broken by index", i, j));
+            }
+        }
+    }
+    if let Some((Ok(e2), Ok(d2))) = build(ty, 0, &opts) {
+        if enc_nodes(&e2) != enc_nodes(&e) || dec_nodes(&d2) != dec_nodes(&d) {
+            fail("construction is not deterministic");
+        }
+    }
+    // independent of the weight type
+    if ty != "u64" && rng.chance(1, 4) {
+        if let Some((Ok(e2), Ok(d2))) = build("u64", 0, &opts) {
+            if enc_nodes(&e2) != enc_nodes(&e) || dec_nodes(&d2) != dec_nodes(&d) {
+                fail("trees depend on the weight type");
+            }
+        }
+    }
+    // the two arrays describe the same tree: decoder child table entry i = [x, y] <=> encoder
+    // parents of x, y are (n + i) with bits 0, 1; root entry 0
+    {
+        let en = enc_nodes(&e);
+        let dn = dec_nodes(&d);
+        let mut ok = en.len() == 2 * n - 1 && dn.len() == 2 * (n - 1) && en[2 * n - 2] == 0;
+        if ok {
+            for i in 0..n - 1 {
+                let (x, y) = (dn[2 * i] as usize, dn[2 * i + 1] as usize);
+                ok &= x < 2 * n - 1 && y < 2 * n - 1 && x < n + i && y < n + i;
+                if ok {
+                    ok &= en[x] == ((n + i) as u128) << 1 && en[y] == (((n + i) as u128) << 1) | 1;
+                }
+            }
+            ok &= en.iter().filter(|&&v| v == 0).count() == 1;
+        }
+        if !ok {
+            rep.fail("C15", format!("{} : encoder array and decoder table describe different trees", replay()));
+        }
+    }
+    // C09: symbols outside the alphabet are rejected in both forms, nothing is emitted
+    for s in [n as u128, n as u128 + 1, 2 * n as u128 - 2, 2 * n as u128 - 1, 2 * n as u128, (1 << 32) + n as u128 - 1, (1u128 << 63) + n as u128 - 1, u64::MAX as u128, n as u128 + rng.below(1 << 40)] {
+        if s < n as u128 {
+            continue;
+        }
+        rep.eval("C09");
+        for prefix in [true, false] {
+            let (bits, st) = encode_with(&e, prefix, s as usize, None);
+            if st != "impossible" || !bits.is_empty() {
+                rep.fail("C09", format!("{} | {} {:x} : out-of-alphabet symbol not rejected", replay(), if prefix { "prefix" } else { "suffix" }, s));
+            }
+        }
+    }
+    rep.sample("C15", || format!("{} cost {}", replay(), cost));
+}
+
+pub fn oracle(rng: &mut Rng, tier: &str, rep: &mut Report) {
+    let thorough = tier == "thorough";
+    // all vectors over {0..5} up to length 5 (quick) / 7 (thorough), brute force optimum
+    let upto = if thorough { 7 } else { 5 };
+    let mut idx = 0usize;
+    for len in 1..=upto {
+        let mut r = rng.fork();
+        let mut todo: Vec<Vec<u128>> = Vec::new();
+        for_all_vectors(len, 5, &mut |v| todo.push(v.to_vec()));
+        for v in todo {
+            let ty = ALL_TYPES[idx % ALL_TYPES.len()];
+            idx += 1;
+            oracle_one(&v, ty, &mut r, rep, true);
+        }
+    }
+    let iters = if thorough { 40000 } else { 3000 };
+    for i in 0..iters {
+        let ty = *rng.pick(&ALL_TYPES);
+        let n = match rng.next() % 8 {
+            0 | 1 | 2 => rng.range(2, 9),
+            3 | 4 => rng.range(2, 30),
+            5 | 6 => rng.range(10, 120),
+            _ => rng.range(100, 600),
+        } as usize;
+        let budget: u128 = match ty {
+            "u8" => 255,
+            "u16" => 65535,
+            "u32" => u32::MAX as u128,
+            "u64" | "usize" => u64::MAX as u128,
+            "f32" => (1 << 24) - 1,
+            _ => (1u128 << 53) - 1,
+        };
+        let per = (budget / n as u128).max(1);
+        let style = rng.next() % 5;
+        let ws: Vec<u128> = (0..n)
+            .map(|_| match style {
+                0 => rng.below(per.min(3) + 1),
+                1 => rng.below(per.min(20) + 1),
+                2 => rng.below(per + 1),
+                3 => rng.bits_biased(20).min(per),
+                _ => pow2(rng.below(20) as u32).min(per),
+            })
+            .collect();
+        if ws.iter().sum::<u128>() > budget {
+            continue;
+        }
+        oracle_one(&ws, ty, rng, rep, true);
+    }
+    // Fibonacci weights: deepest possible trees, codewords longer than one `usize` word
+    for n in [2usize, 3, 10, 40, 64, 65, 66, 80, 90] {
+        let mut fib = vec![1u128, 1];
+        while fib.len() < n {
+            let l = fib.len();
+            fib.push(fib[l - 1] + fib[l - 2]);
+        }
+        fib.truncate(n);
+        oracle_one(&fib, "u64", rng, rep, false);
+        fib.reverse();
+        oracle_one(&fib, "usize", rng, rep, false);
+    }
+    // NaN is rejected by both float constructors wherever it occurs (C15 "floats"; C19-like)
+    for _ in 0..(if thorough { 2000 } else { 200 }) {
+        let n = rng.range(1, 8) as usize;
+        let mut v: Vec<Option<u128>> = (0..n).map(|_| Some(rng.below(100))).collect();
+        let at = rng.below(n as u128) as usize;
+        v[at] = None;
+        for ty in ["f32", "f64"] {
+            rep.eval("C15");
+            rep.count("huff.nan");
+            match build(ty, 0, &v) {
+                Some((Err(a), Err(b))) if a == "rejected" && b == "rejected" => {}
+                _ => rep.fail("C15", format!("huff {} | NaN at {} of {} : not rejected", ty, at, n)),
+            }
+        }
+    }
+}
